@@ -315,4 +315,26 @@ theorem specOk_sound_ad {c : Cfg} {s s' : State} {o : Out} (h : specOk c s s' o 
       cases hd'
       exact ⟨hnS, hnP, hlt, hq⟩
 
+/-- soundness of (R), requests of an active call: drawn from the active set; PaVeBa / Auer /
+NaiveElimination request every active design; the others at most `batch` evaluations -/
+theorem specOk_sound_requests {c : Cfg} {s s' : State} {o : Out} (h : specOk c s s' o = true)
+    (hd : isDone c s = false) :
+    (∀ r ∈ o.req, r.1 ∈ activeAt c s s') ∧
+    (c.alg.evalAll = true → o.req.length = (activeAt c s s').length ∧
+      ∀ d ∈ activeAt c s s', ∃ r ∈ o.req, r.1 = d) ∧
+    (c.alg.evalAll = false → o.req.length ≤ c.batch) := by
+  unfold specOk at h
+  simp only [hd, Bool.false_eq_true, if_false, Bool.and_eq_true] at h
+  have h5 := h.1.2
+  unfold reqsOk at h5
+  simp only [Bool.and_eq_true, List.all_eq_true, List.contains_eq_mem, decide_eq_true_eq] at h5
+  refine ⟨h5.1, ?_, ?_⟩
+  · intro he
+    simp only [he, if_true, Bool.and_eq_true, beq_iff_eq, List.all_eq_true, List.any_eq_true] at h5
+    exact ⟨h5.2.1.1, h5.2.1.2⟩
+  · intro he
+    simp only [he, Bool.false_eq_true, if_false, Bool.and_eq_true, decide_eq_true_eq] at h5
+    have := h5.2.1
+    omega
+
 end VOPy.Run
